@@ -51,7 +51,7 @@ const DESCRIPTOR_OK: &str = "api = \"0.10\"\n[buildpack]\nid = \"verif/witness\"
 fn old_content(kind: &str) -> Vec<u8> { let mut v = Vec::new(); for i in 0..400 { v.extend_from_slice(format!("old_{kind}_{i} = \"{}\"\n", "x".repeat(30)).as_bytes()); } v }
 fn run_one(exe_rtbp: &Path, c: &Cfg, r: &mut Report) {
     r.evaluations += 1;
-    if c.toml != "ok" || c.exe == "other" || c.argc_delta != 0 || !c.missing_var.is_empty() || c.behaviour != "pass" || !c.parts.is_empty() || c.preexisting || c.store != "absent" || c.plan_file != "ok" {
+    if c.toml != "ok" || !["detect", "build"].contains(&c.exe) || c.argc_delta != 0 || !c.missing_var.is_empty() || c.behaviour != "pass" || !c.parts.is_empty() || c.preexisting || c.store != "absent" || c.plan_file != "ok" {
         r.nontrivial += 1;
     }
     let t = tempfile::tempdir().unwrap();
@@ -75,6 +75,8 @@ fn run_one(exe_rtbp: &Path, c: &Cfg, r: &mut Report) {
             fs::write(e.join(k), v).unwrap();
             expected_env.push((hex(k.as_bytes()), hex(v.as_bytes())));
         }
+        // a variable whose NAME is not valid UTF-8 (the value must be UTF-8: read_to_string)
+        { use std::os::unix::ffi::OsStrExt; let k = std::ffi::OsStr::from_bytes(b"CAF\xC9"); fs::write(e.join(k), "au lait").unwrap(); expected_env.push((hex(b"CAF\xC9"), hex(b"au lait"))); }
         fs::write(root.join("outside_value"), b"via-link").unwrap();
         symlink(root.join("outside_value"), e.join("LINKED")).unwrap();
         expected_env.push((hex(b"LINKED"), hex(b"via-link")));
@@ -123,7 +125,7 @@ fn run_one(exe_rtbp: &Path, c: &Cfg, r: &mut Report) {
     let mut fail = |case: &str, what: &str, expected: String, actual: String| r.violation(case, what, input.clone(), expected, actual);
 
     // ---- the decision table (executable form of exit_table)
-    let gate_closed = c.toml != "ok" || c.exe == "other" || c.argc_delta != 0;
+    let gate_closed = c.toml != "ok" || !["detect", "build"].contains(&c.exe) || c.argc_delta != 0;
     let mandatory_missing = !c.missing_var.is_empty() && !c.missing_var.ends_with('=') && c.missing_var != "CNB_TARGET_ARCH_VARIANT";
     let inputs_bad = mandatory_missing || (c.exe == "build" && (c.plan_file != "ok" || ["malformed", "binary", "directory", "loop"].contains(&c.store)));
     let callback = if c.exe == "build" { "build" } else { "detect" };
@@ -200,6 +202,8 @@ pub fn runtime(thorough: bool) -> Report {
     let exe = std::env::current_exe().unwrap().parent().unwrap().join("rtbp");
     if !exe.exists() { r.violation("harness", "rtbp binary missing", String::new(), exe.display().to_string(), "absent".into()); return r; }
     let mut cfgs = vec![];
+    // wrong executable names incl. ones whose STEM is a phase name
+    for exe in ["detect.bak", "build.toml", "detect.", "Detect", "detects"] { let mut c = Cfg::base(exe); c.argc_delta = if exe.starts_with("build") { 0 } else { 0 }; cfgs.push(c); }
     for exe in ["detect", "build", "other"] { for d in [0, -1, 1] { for toml in ["ok", "unsupported", "malformed", "missing", "nodirvar"] {
         let behaviours: &[&'static str] = if thorough { &["pass", "error", "fail"] } else { &["pass"] };
         for b in behaviours { let mut c = Cfg::base(exe); c.argc_delta = d; c.toml = toml; c.behaviour = if exe == "build" && *b == "fail" { "error" } else { b }; cfgs.push(c); }
